@@ -207,7 +207,12 @@ int jwt_checker_verify(jwt_checker_t *c, const char *token)
 	return 0;
 }
 const char *jwt_checker_error_msg(const jwt_checker_t *c) { return ""; }
-int jwt_checker_setkey(jwt_checker_t *c, const jwt_alg_t alg, const jwk_item_t *key) { return nondet_int(); }
+int jwt_checker_setkey(jwt_checker_t *c, const jwt_alg_t alg, const jwk_item_t *key)
+{
+	/* C20 / C02: the tool pins what the user asked for -- the library then refuses a key whose own alg differs */
+	__CPROVER_assert(alg == g_user_alg, "jwt_checker_setkey: the algorithm handed on is the one given with -a (none if there was no -a)");
+	return nondet_int();
+}
 int jwt_checker_setcb(jwt_checker_t *c, jwt_callback_t cb, void *ctx) { return nondet_int(); }
 jwk_set_t *jwks_create_fromfile(const char *file_name) { return nondet_bool() ? NULL : malloc(sizeof(struct jwk_set)); }
 void jwks_free(jwk_set_t *s) { free(s); }
@@ -217,5 +222,6 @@ const jwk_item_t *jwks_item_get(const jwk_set_t *s, size_t i) { return nondet_bo
 int jwks_item_error(const jwk_item_t *it) { return nondet_int(); }
 const char *jwks_item_error_msg(const jwk_item_t *it) { return ""; }
 jwt_alg_t jwks_item_alg(const jwk_item_t *it) { jwt_alg_t a = (jwt_alg_t)nondet_int(); __CPROVER_assume(a >= JWT_ALG_NONE && a < JWT_ALG_INVAL); return a; }
-jwt_alg_t jwt_str_alg(const char *s) { jwt_alg_t a = (jwt_alg_t)nondet_int(); __CPROVER_assume(a >= JWT_ALG_NONE && a <= JWT_ALG_INVAL); return a; }
+jwt_alg_t g_user_alg;	/* ghost: the algorithm the user named last with -a / --algorithm (none if never) */
+jwt_alg_t jwt_str_alg(const char *s) { jwt_alg_t a = (jwt_alg_t)nondet_int(); __CPROVER_assume(a >= JWT_ALG_NONE && a <= JWT_ALG_INVAL); g_user_alg = a; return a; }
 const char *jwt_alg_str(jwt_alg_t a) { return "x"; }
